@@ -18,6 +18,7 @@ CONSTANTS
   LegacyNilLog = FALSE
   PubRest <- RestB
   MutBatchPersistFirst = FALSE
+  MutDropLogEarly = FALSE
   MutBatchNoWait = TRUE
   MutPersistOutsideLock = FALSE
 INVARIANTS NoPanic OneUnsettled OneSenderPerPair NoSpuriousRedelivery OnlyOwnTopic BlockingReturn BatchOrder AfterClose NoStuckCall Complete
